@@ -16,7 +16,7 @@
     an abstract [idx_spec] hypothesis are kept as ..._under_idx_spec. *)
 From Coq Require Import ZArith Bool String List Reals.
 From Flocq Require Import Core BinarySingleNaN.
-Require NixV.Gen.GenAccess NixV.Access.AccessBridgeModels.
+Require NixV.Gen.GenAccess NixV.Access.AccessBridgeModels NixV.Gen.GenView NixV.Gen.GenNDSize NixV.Access.ViewBridge.
 Require Import NixV.Base.Prelude NixV.Base.F64 NixV.Base.F64Facts NixV.Gen.GenDimensions NixV.Axis.AxisSpec
                NixV.Axis.RangeModel NixV.Axis.SampledProofs NixV.Data.NDIndex NixV.Data.NDArr
                NixV.Access.SliceSwitches NixV.Access.View NixV.Access.Slice NixV.Access.SliceSpec
@@ -465,6 +465,24 @@ Theorem C17_window_test_is_generated : forall B extent pos cnt,
   Slice.position_and_extent_in_data B extent pos cnt = NixV.Gen.GenAccess.positionAndExtentInData pos cnt extent.
 Proof. exact NixV.Access.AccessBridgeModels.slice_extent_test_is_generated. Qed.
 Print Assumptions C17_window_test_is_generated.
+
+(** * The DataView window tests and the NDSize comparison they use are the code regenerated on this run from
+    include/nix/DataView.hpp, src/DataView.cpp and include/nix/NDSize.hpp *)
+Theorem C17_view_constructor_is_generated : forall B extent cnt off,
+  SliceSwitches.view_check_wraps B = false -> (List.length extent < 200)%nat ->
+  NixV.Gen.GenView.DataView_ctor cnt off extent = bind (View.mk_view B extent cnt off) (fun _ => Ok tt).
+Proof. exact NixV.Access.ViewBridge.mk_view_generated. Qed.
+Print Assumptions C17_view_constructor_is_generated.
+
+Theorem C17_transform_coordinates_is_generated : forall B v cnt off,
+  SliceSwitches.view_check_wraps B = false -> (List.length (View.v_count v) < 200)%nat -> (List.length cnt < 200)%nat ->
+  NixV.Gen.GenView.transform_coordinates cnt off (View.v_count v) (View.v_offset v) = View.transform_coordinates B v cnt off.
+Proof. exact NixV.Access.ViewBridge.transform_coordinates_generated. Qed.
+Print Assumptions C17_transform_coordinates_is_generated.
+
+Theorem C17_ndsize_gt_is_generated : forall a b, (List.length a < 200)%nat -> NixV.Gen.GenNDSize.nd_gt a b = View.nd_gt a b.
+Proof. exact NixV.Access.ViewBridge.nd_gt_generated. Qed.
+Print Assumptions C17_ndsize_gt_is_generated.
 
 (** * The library under test has the repaired behaviour (the patches landed as 08a7783, 956fa36, cf8bb07); this
     theorem breaks if the model driver is switched back to a defective behaviour *)
